@@ -2,21 +2,25 @@ package c17
 
 import (
 	"bytes"
+	"encoding/binary"
 	"fmt"
+	"hash/fnv"
 	"os"
 	"sort"
+	"strings"
 	"sync"
 
 	"github.com/go-text/typesetting/font"
 	ot "github.com/go-text/typesetting/font/opentype"
 	"github.com/go-text/typesetting/font/opentype/tables"
+	"github.com/go-text/typesetting/language"
 
 	"verif/internal/corpus"
 	"verif/internal/textgen"
 )
 
-// PoolEntry names one font of the shared pool (decoded: corpus-relative path + face index), so
-// that a saved program can be replayed even if the selection rule below changes.
+// PoolEntry names one font of a program's shared pool (decoded: corpus-relative path + face
+// index), so that a saved program is replayable whatever the selection rule below becomes.
 type PoolEntry struct {
 	Kind  string `json:"kind"`
 	File  string `json:"file"`
@@ -28,54 +32,66 @@ type axis struct {
 	min, def, max float32
 }
 
-// poolFont is what the generator and the executor know about one pool entry. Everything here is
-// computed once per process by the test goroutine, before any program runs, and is read-only
+// tableRec is one record of the sfnt table directory of a pool font file.
+type tableRec struct {
+	tag      string
+	off, len int
+}
+
+// poolFont is what the generator and the executor know about one candidate font. Everything here
+// is computed once per process by the test goroutine, before any program runs, and is read-only
 // afterwards. ref is the reference instance: it is only ever used sequentially.
 type poolFont struct {
 	PoolEntry
-	data    []byte
-	ref     *font.Font
-	nGlyphs int
-	runes   []rune   // sample of the runes the cmap maps
-	scripts []string // textgen alphabets the font covers well
-	axes    []axis
-	family  string
+	data     []byte
+	ref      *font.Font
+	nGlyphs  int
+	runes    []rune   // sample of the runes the cmap maps
+	scripts  []string // textgen alphabets the font covers well
+	iso      []string // ISO 15924 tags of the strong scripts of the sample, most frequent first
+	axes     []axis
+	family   string
+	features []string   // feature tags of the font's own GSUB and GPOS
+	langs    []string   // "x-hbsc<script>-hbot<language>": the font's own script/language systems
+	tables   []tableRec // nil unless the file is a plain sfnt (single font)
 }
 
-// category is one stratum of the pool; the smallest corpus file (ties: by path) whose table
-// directory satisfies want, whose cmap maps at least minRunes runes (and needRune, if set) and
-// which has at least minGSUB / minGPOS lookups is chosen: small, but with real layout tables.
-type category struct {
-	kind             string
-	want             func(tr corpus.Traits) bool
-	minRunes         int
-	needRune         rune
-	minGSUB, minGPOS int
+// stratum is one class of fonts; every program draws its 3–5 shared fonts from different strata.
+type stratum struct {
+	kind     string
+	want     func(tr corpus.Traits) bool
+	minRunes int // mapped runes a candidate must have (the few CFF2 fonts of the corpus are toys)
 }
 
-var categories = []category{
-	{kind: "truetype", minRunes: 50, minGSUB: 5, minGPOS: 3, want: func(tr corpus.Traits) bool {
-		return tr.Glyf && !tr.Fvar && !tr.Morx && !tr.Bitmap && !tr.CFF && !tr.CFF2 && tr.GSUB && tr.GPOS
-	}},
-	{kind: "cff", minRunes: 100, minGSUB: 5, minGPOS: 1, want: func(tr corpus.Traits) bool { return tr.CFF && tr.GSUB && tr.GPOS }},
-	{kind: "cff2", minRunes: 2, want: func(tr corpus.Traits) bool { return tr.CFF2 && tr.Fvar }},
-	{kind: "variable", minRunes: 100, minGSUB: 5, minGPOS: 3, want: func(tr corpus.Traits) bool { return tr.Glyf && tr.Fvar && tr.GSUB && tr.GPOS }},
-	{kind: "aat", minRunes: 100, want: func(tr corpus.Traits) bool { return tr.Morx && tr.Glyf }},
-	{kind: "bitmap", minRunes: 30, want: func(tr corpus.Traits) bool { return tr.Bitmap }},
-	{kind: "indic", minRunes: 50, needRune: 0x0915, minGSUB: 5, minGPOS: 3, want: func(tr corpus.Traits) bool { return tr.Glyf && !tr.Fvar && tr.GSUB && tr.GPOS }},
+var strata = []stratum{
+	{"truetype", func(tr corpus.Traits) bool {
+		return tr.Glyf && !tr.Fvar && !tr.Morx && !tr.Kerx && !tr.Bitmap && (tr.GSUB || tr.GPOS)
+	}, 20},
+	{"cff", func(tr corpus.Traits) bool { return tr.CFF && !tr.Fvar }, 20},
+	{"cff2", func(tr corpus.Traits) bool { return tr.CFF2 }, 2},
+	{"variable", func(tr corpus.Traits) bool { return tr.Glyf && tr.Fvar && !tr.Morx }, 20},
+	{"aat", func(tr corpus.Traits) bool { return tr.Morx || tr.Kerx }, 20},
+	{"bitmap", func(tr corpus.Traits) bool { return tr.Bitmap || tr.SVG }, 4},
+	{"plain", func(tr corpus.Traits) bool {
+		return tr.Glyf && !tr.GSUB && !tr.GPOS && !tr.Fvar && !tr.Morx && !tr.Kerx && !tr.Bitmap
+	}, 20},
 }
 
-const maxPoolFileSize = 400 << 10
+const (
+	maxPoolFileSize = 800 << 10 // larger files make NewFace / NewFont / AddFace too slow for 64 goroutines under -race
+	richPerStratum  = 10        // the fonts with the largest layout tables ...
+	smallPerStratum = 4         // ... and the smallest usable ones (cheap, high contention)
+)
 
 var (
-	poolMu    sync.Mutex
-	poolCache = map[string]*poolFont{} // by "file#index"
-	stdPool   []*poolFont
+	poolMu     sync.Mutex
+	poolCache  = map[string]*poolFont{} // by "file#index"
+	candidates [][]*poolFont            // per stratum; richest first
 )
 
 func entryKey(e PoolEntry) string { return fmt.Sprintf("%s#%d", e.File, e.Index) }
 
-// parseFont parses a fresh, independent *font.Font from the bytes of the entry.
+// parseFont parses a fresh, independent *font.Font from the bytes of a font file.
 func parseFont(data []byte, index int) (ft *font.Font, ld *ot.Loader, err error) {
 	defer func() {
 		if r := recover(); r != nil {
@@ -93,6 +109,43 @@ func parseFont(data []byte, index int) (ft *font.Font, ld *ot.Loader, err error)
 	return ft, lds[index], err
 }
 
+// sfntDirectory reads the table directory of a plain sfnt file (nil for collections, dfont, woff).
+func sfntDirectory(data []byte) []tableRec {
+	if len(data) < 12 {
+		return nil
+	}
+	switch binary.BigEndian.Uint32(data) {
+	case 0x00010000, 0x4F54544F, 0x74727565, 0x74797031: // 1.0, OTTO, true, typ1
+	default:
+		return nil
+	}
+	n := int(binary.BigEndian.Uint16(data[4:]))
+	if len(data) < 12+16*n {
+		return nil
+	}
+	out := make([]tableRec, 0, n)
+	for i := 0; i < n; i++ {
+		rec := data[12+16*i:]
+		off, l := int(binary.BigEndian.Uint32(rec[8:])), int(binary.BigEndian.Uint32(rec[12:]))
+		if off < 0 || l < 0 || off+l > len(data) {
+			continue
+		}
+		out = append(out, tableRec{tag: string(rec[:4]), off: off, len: l})
+	}
+	return out
+}
+
+func trimTag(t ot.Tag) string { return strings.TrimRight(t.String(), " ") }
+
+func alnum(s string) bool {
+	for _, c := range s {
+		if !(c >= 'a' && c <= 'z' || c >= 'A' && c <= 'Z' || c >= '0' && c <= '9') {
+			return false
+		}
+	}
+	return s != ""
+}
+
 // loadEntry builds (once) the poolFont of an entry.
 func loadEntry(e PoolEntry) (*poolFont, error) {
 	poolMu.Lock()
@@ -108,7 +161,7 @@ func loadEntry(e PoolEntry) (*poolFont, error) {
 	if err != nil {
 		return nil, err
 	}
-	pf := &poolFont{PoolEntry: e, data: data, ref: ft}
+	pf := &poolFont{PoolEntry: e, data: data, ref: ft, tables: sfntDirectory(data)}
 	if raw, err := ld.RawTable(ot.MustNewTag("maxp")); err == nil {
 		if maxp, _, err := tables.ParseMaxp(raw); err == nil {
 			pf.nGlyphs = int(maxp.NumGlyphs)
@@ -138,6 +191,55 @@ func loadEntry(e PoolEntry) (*poolFont, error) {
 	if len(pf.scripts) == 0 {
 		pf.scripts = []string{"latin"}
 	}
+	// the scripts of the font's own runes
+	count := map[string]int{}
+	for _, r := range pf.runes {
+		if s := language.LookupScript(r); s.Strong() && s != language.Unknown {
+			tag := s.String()
+			count[strings.ToUpper(tag[:1])+tag[1:]]++
+		}
+	}
+	for tag := range count {
+		pf.iso = append(pf.iso, tag)
+	}
+	sort.Slice(pf.iso, func(i, j int) bool {
+		if count[pf.iso[i]] != count[pf.iso[j]] {
+			return count[pf.iso[i]] > count[pf.iso[j]]
+		}
+		return pf.iso[i] < pf.iso[j]
+	})
+	// the font's own features and script/language systems
+	seenF, seenL := map[string]bool{}, map[string]bool{}
+	for _, layout := range []*font.Layout{&ft.GSUB.Layout, &ft.GPOS.Layout} {
+		for _, f := range layout.Features {
+			if tag := f.Tag.String(); !seenF[tag] {
+				seenF[tag] = true
+				pf.features = append(pf.features, tag)
+			}
+		}
+		for _, s := range layout.Scripts {
+			st := trimTag(s.Tag)
+			if !alnum(st) {
+				continue
+			}
+			if v := "x-hbsc" + st; !seenL[v] {
+				seenL[v] = true
+				pf.langs = append(pf.langs, v)
+			}
+			for _, l := range s.LangSysRecords {
+				lt := trimTag(l.Tag)
+				if !alnum(lt) {
+					continue
+				}
+				if v := "x-hbsc" + st + "-hbot" + lt; !seenL[v] {
+					seenL[v] = true
+					pf.langs = append(pf.langs, v)
+				}
+			}
+		}
+	}
+	sort.Strings(pf.features)
+	sort.Strings(pf.langs)
 	poolCache[entryKey(e)] = pf
 	return pf, nil
 }
@@ -157,91 +259,102 @@ func countRunes(ft *font.Font, limit int) (n int) {
 	return n
 }
 
-// standardPool selects one font per category, deterministically (files sorted by size, then path).
-func standardPool() ([]*poolFont, error) {
-	if stdPool != nil {
-		return stdPool, nil
+// candidatePools builds, deterministically, the list of candidate fonts of every stratum: among
+// the distinct (by content) corpus files of at most maxPoolFileSize whose table directory
+// (corpus.TraitsOf) puts them in the stratum and which load with at least the stratum's minRunes mapped runes,
+// the richPerStratum files with the largest layout tables (GSUB+GPOS+morx+kerx bytes; ties: by
+// path) followed by the smallPerStratum smallest files.
+func candidatePools() ([][]*poolFont, error) {
+	if candidates != nil {
+		return candidates, nil
 	}
 	type fi struct {
-		rel  string
-		size int64
+		rel    string
+		size   int64
+		layout int
+		tr     corpus.Traits
 	}
-	var files []fi
+	perStratum := make([][]fi, len(strata))
+	seen := map[uint64]bool{}
 	for _, rel := range corpus.Files() {
 		st, err := os.Stat(corpus.Abs(rel))
 		if err != nil || st.Size() > maxPoolFileSize {
 			continue
 		}
-		files = append(files, fi{rel, st.Size()})
-	}
-	sort.Slice(files, func(i, j int) bool {
-		if files[i].size != files[j].size {
-			return files[i].size < files[j].size
+		data, err := corpus.Bytes(rel)
+		if err != nil {
+			continue
 		}
-		return files[i].rel < files[j].rel
-	})
-	chosen := make([]*poolFont, len(categories))
-	missing := len(categories)
-	for _, f := range files {
-		if missing == 0 {
-			break
+		h := fnv.New64a()
+		h.Write(data)
+		if seen[h.Sum64()] {
+			continue // the corpus holds many files more than once
 		}
-		var tr corpus.Traits
-		haveTraits := false
-		for ci, c := range categories {
-			if chosen[ci] != nil {
-				continue
+		seen[h.Sum64()] = true
+		tr := corpus.TraitsOf(rel, 0)
+		layout := 0
+		for _, t := range sfntDirectory(data) {
+			switch t.tag {
+			case "GSUB", "GPOS", "morx", "kerx", "mort", "kern":
+				layout += t.len
 			}
-			if !haveTraits {
-				tr = corpus.TraitsOf(f.rel, 0)
-				haveTraits = true
+		}
+		for si, s := range strata {
+			if s.want(tr) {
+				perStratum[si] = append(perStratum[si], fi{rel, st.Size(), layout, tr})
+				break
 			}
-			if !c.want(tr) {
-				continue
-			}
-			data, err := corpus.Bytes(f.rel)
-			if err != nil {
-				continue
-			}
-			ft, _, err := parseFont(data, 0)
-			if err != nil {
-				continue
-			}
-			if c.needRune != 0 {
-				if _, ok := ft.NominalGlyph(c.needRune); !ok {
-					continue
-				}
-			}
-			if countRunes(ft, c.minRunes) < c.minRunes || len(ft.GSUB.Lookups) < c.minGSUB || len(ft.GPOS.Lookups) < c.minGPOS {
-				continue
-			}
-			already := false
-			for _, pf := range chosen {
-				if pf != nil && pf.File == f.rel {
-					already = true
-				}
-			}
-			if already {
-				continue
-			}
-			pf, err := loadEntry(PoolEntry{Kind: c.kind, File: f.rel, Index: 0})
-			if err != nil {
-				continue
-			}
-			chosen[ci] = pf
-			missing--
-			break
 		}
 	}
-	if missing != 0 {
-		var miss []string
-		for ci, c := range categories {
-			if chosen[ci] == nil {
-				miss = append(miss, c.kind)
+	out := make([][]*poolFont, len(strata))
+	for si, files := range perStratum {
+		usable := func(f fi) *poolFont {
+			pf, err := loadEntry(PoolEntry{Kind: strata[si].kind, File: f.rel, Index: 0})
+			if err != nil || countRunes(pf.ref, strata[si].minRunes) < strata[si].minRunes || pf.nGlyphs == 0 {
+				return nil
+			}
+			return pf
+		}
+		taken := map[string]bool{}
+		sort.Slice(files, func(i, j int) bool {
+			if files[i].layout != files[j].layout {
+				return files[i].layout > files[j].layout
+			}
+			return files[i].rel < files[j].rel
+		})
+		for _, f := range files {
+			if len(out[si]) >= richPerStratum || f.layout == 0 {
+				break
+			}
+			if pf := usable(f); pf != nil {
+				out[si] = append(out[si], pf)
+				taken[f.rel] = true
 			}
 		}
-		return nil, fmt.Errorf("font corpus %s lacks a small font for: %v", corpus.Dir(), miss)
+		sort.Slice(files, func(i, j int) bool {
+			if files[i].size != files[j].size {
+				return files[i].size < files[j].size
+			}
+			return files[i].rel < files[j].rel
+		})
+		small := 0
+		for _, f := range files {
+			if small >= smallPerStratum && len(out[si]) >= richPerStratum {
+				break
+			}
+			if taken[f.rel] {
+				continue
+			}
+			if pf := usable(f); pf != nil {
+				out[si] = append(out[si], pf)
+				taken[f.rel] = true
+				small++
+			}
+		}
+		if len(out[si]) == 0 {
+			return nil, fmt.Errorf("font corpus %s has no usable font for stratum %s", corpus.Dir(), strata[si].kind)
+		}
 	}
-	stdPool = chosen
-	return stdPool, nil
+	candidates = out
+	return candidates, nil
 }
